@@ -620,7 +620,10 @@ def plain_floats():
 
 
 def _norm_float(v):
-    return {"$float": repr(float(v["$float"]))}
+    x = float(v["$float"])
+    if x != 0 and abs(x) < 1e-4:          # repr would use an exponent: outside 'plain decimal'
+        x = x + (0.1 if x > 0 else -0.1)
+    return {"$float": repr(x)}
 
 
 CONFUSABLE_STRINGS = ["true", "false", "True", "False", "null", "None", "0", "1", "-1", "1.0", "1e3", "NaN", "Infinity",
@@ -647,6 +650,9 @@ def json_values(strs, keys):
 
 
 def _json_attrs(draw, fname):
+    if draw(st.integers(0, 15)) == 0:
+        anames = draw(st.lists(unicode_names(), min_size=6, max_size=14, unique=True))
+        return [{"name": a, "value": draw(st.one_of(long_strings(), json_scalars(st.just("s"))))} for a in anames]
     if draw(st.integers(0, 2)):
         return []
     anames = draw(st.lists(unicode_names(), min_size=1, max_size=3, unique=True))
@@ -768,7 +774,21 @@ def uvl_values():
                                                               st.dictionaries(keys, ch, max_size=3)), max_leaves=5))
 
 
+def long_strings(forbidden=""):
+    """Sentences of 20-90 characters with the separators pretty-printers and line wrappers split at."""
+    words = st.sampled_from(["red", "green", "blue", "a", "I", "x1", "true", "10", "%", "and", "or", "{", "}", "[", "]", "(", ")"])
+    seps = st.sampled_from([", ", "; ", ": ", " = ", " ", " - ", " / ", ",", " , "])
+    return st.lists(st.tuples(words, seps), min_size=6, max_size=20).map(
+        lambda ps: "".join(w + sp for w, sp in ps).strip() or "x").map(
+        lambda t: "".join(ch for ch in t if ch not in forbidden) or "x")
+
+
 def _uvl_attrs(draw, fname):
+    if draw(st.integers(0, 11)) == 0:
+        # a long declaration: many attributes and long string values (lines far beyond 100 characters)
+        anames = draw(st.lists(uvl_attr_names(), min_size=6, max_size=14, unique=True))
+        vals = st.one_of(uvl_values(), long_strings("'."), long_strings("'."))
+        return [{"name": a, "value": draw(vals)} for a in anames]
     if draw(st.integers(0, 2)):
         return []
     anames = draw(st.lists(uvl_attr_names(), min_size=1, max_size=3, unique=True))
@@ -903,4 +923,26 @@ def eq_twin(draw, model):
     rec(m["root"])
     if len(m["ctcs"]) > 1 and draw(st.booleans()):
         m["ctcs"] = list(reversed(m["ctcs"]))
+    return m
+
+
+def concatenation_twins(draw, m):
+    """Value-style attributes (UVL / JSON / Clafer): two attributes whose 'feature name + attribute name' spell the
+    same text (Pay.palfee / Paypal.fee) - keys glued together without a separator cannot tell them apart."""
+    from vf import build
+    feats = [f for f, _ in build.iter_feats(m["root"])]
+    taken = {f["name"] for f in feats}
+    host = draw(st.sampled_from(feats))
+    suffix = draw(st.sampled_from(["pal", "x", "a1", "fee", "q", "_b"]))
+    tail = draw(st.sampled_from(["fee", "cost", "w", "a"]))
+    new_name = host["name"] + suffix
+    if new_name in taken or any(a["name"] in (suffix + tail, tail) for a in host["attrs"]):
+        return m
+    twin = build.feat(new_name)
+    host["attrs"].append({"name": suffix + tail, "value": draw(st.integers(0, 9))})
+    twin["attrs"].append({"name": tail, "value": draw(st.integers(10, 19))})
+    parent = draw(st.sampled_from(feats))
+    if parent["rels"] and len(parent["rels"][0]["children"]) >= 2:
+        parent = next((f for f in feats if not f["rels"]), parent)      # keep one-group layouts intact: hang it on a leaf
+    parent["rels"].append(build.rel(0, 1, [twin]))
     return m
